@@ -90,10 +90,9 @@ theorem C08_failure_is_error :
   refine ⟨step_isError, ?_, ?_, ?_⟩
   · intro s n k id hn
     have hn' : MAX_BACKEND_RETRY ≤ n := hn
-    simp [connErr, hn']
+    by_cases he : s.tasks = [] <;> simp [connErr, hn', he]
   · intro s id hp h1 h2
-    have hge : MAX_BACKEND_RETRY ≥ MAX_BACKEND_RETRY := Nat.le_refl _
-    simp [step, hp, h1, h2, connErr]
+    by_cases he : s.tasks = [] <;> simp [step, hp, h1, h2, connErr, he]
   · intro s id hp
     cases hr : s.retry with
     | none =>
@@ -121,7 +120,8 @@ theorem C08_close_quiesces (s : St) (hwf : WF s) (hc : s.closed = true)
 Before the fix `retry_times_opt` was `Some` only in the first poll of a connection, so a connection
 that broke in a later poll restarted the count and a request whose every exchange failed
 circulated for ever (the former `C08_retry_unbounded`).  Now the count lives as long as the
-connection and is cleared only when a reply leaves the task queue empty. -/
+connection and is cleared only when a reply leaves the task queue empty; a failure with an empty
+queue carries no count over (commit 24d4705). -/
 
 /-- **C08_retry_bounded** — "never silence".  In every reachable state (`pre` arbitrary):
 1. the retry level (`retry_times_opt` of the live connection / `retry_state.retry_times` between
@@ -132,7 +132,8 @@ connection and is cleared only when a reply leaves the task queue empty. -/
    `MAX_BACKEND_RETRY - level ≤ MAX_BACKEND_RETRY` failures: a held request is written on at most
    `1 + MAX_BACKEND_RETRY` connections;
 3. a connection failure at level `MAX_BACKEND_RETRY` answers every held task, written or not, with
-   an error and owes nothing more (a time-out does so at any level, `C08_failure_is_error`). -/
+   an error and owes nothing more (a time-out does so at any level, `C08_failure_is_error`).
+A failure with nothing held does not touch the budget: `C08_idle_failure_keeps_budget`. -/
 theorem C08_retry_bounded (pre evs : List Ev) :
     lvl (run init pre).1 ≤ MAX_BACKEND_RETRY ∧
     (HeldAlong (run init pre).1 evs →
@@ -157,9 +158,34 @@ theorem C08_retry_bounded (pre evs : List Ev) :
       rcases he with he | ⟨k, he⟩ <;> rw [he] at hit <;> cases hit
     rcases he with he | ⟨k, he⟩
     · subst he
-      refine ⟨?_, ?_, ?_, ?_, herr⟩ <;> simp [step, hp, connErr, hl']
+      by_cases hte : s.tasks = []
+      · refine ⟨?_, ?_, ?_, ?_, herr⟩ <;> simp [step, hp, connErr, hte]
+      · refine ⟨?_, ?_, ?_, ?_, herr⟩ <;> simp [step, hp, connErr, hl', hte]
     · subst he
-      refine ⟨?_, ?_, ?_, ?_, herr⟩ <;> simp [step, hp, connErr, hl']
+      by_cases hte : s.tasks = []
+      · refine ⟨?_, ?_, ?_, ?_, herr⟩ <;> simp [step, hp, connErr, hte]
+      · refine ⟨?_, ?_, ?_, ?_, herr⟩ <;> simp [step, hp, connErr, hl', hte]
+
+/-- **C08_idle_failure_keeps_budget** (commit 24d4705).  A connection failure while no task is held
+(an idle disconnect, a reply-less reset, …) yields no retry state and no result: the machine
+reconnects with level 0, so the next request starts with the full budget — after `connOk`,
+`poll`, `write` its first failure is retried (`retry = some (1, ..)`), not answered. -/
+theorem C08_idle_failure_keeps_budget (s : St) (e : Ev) (hp : s.phase = .up) (ht : s.tasks = [])
+    (he : e = .peerClosed ∨ (∃ k, e = .writeErr k) ∨ (∃ it, e = .item it)) :
+    (step s e).2 = [] ∧ (step s e).1.retry = none ∧ (step s e).1.phase = .connecting ∧
+    lvl (step s e).1 = 0 ∧
+    (∀ t, s.closed = false → s.chan = [t] →
+      (run (step s e).1 [.connOk, .poll, .write, .peerClosed]).1.retry = some (1, [t]) ∧
+      (run (step s e).1 [.connOk, .poll, .write, .peerClosed]).2 = []) := by
+  have hmax : ¬ (MAX_BACKEND_RETRY ≤ 0) := by decide
+  rcases he with he | ⟨k, he⟩ | ⟨it, he⟩ <;> subst he <;>
+    (refine ⟨?_, ?_, ?_, ?_, ?_⟩
+     · simp [step, hp, ht, connErr]
+     · simp [step, hp, ht, connErr]
+     · simp [step, hp, ht, connErr]
+     · simp [step, hp, ht, connErr, lvl]
+     · intro t hc hch
+       simp [step, run, hp, ht, connErr, drainUp, hmax, hc, hch])
 
 /-! ### Session half -/
 
@@ -249,6 +275,13 @@ example :
     (run init (.enqueue (.simple 1) :: (cyc ++ cyc ++ cyc ++ cyc))).2 = [(1, .err .backend)] ∧
     pendingIds (run init (.enqueue (.simple 1) :: (cyc ++ cyc ++ cyc ++ cyc))).1 = [] ∧
     fails init (.enqueue (.simple 1) :: (cyc ++ cyc ++ cyc ++ cyc)) = 4 := by decide
+
+/-- three idle disconnects do not consume the budget: the request's first failure is retried -/
+example :
+    let idle : List Ev := [.connOk, .poll, .pollEnd true, .poll, .peerClosed]
+    (run init (idle ++ idle ++ idle ++
+      [.connOk, .poll, .enqueue (.simple 1), .poll, .write, .pollEnd false, .poll, .peerClosed])).1.retry
+      = some (1, [.simple 1]) := by decide
 
 /-- `HeldAlong` is satisfiable: three failing exchanges with the request held throughout -/
 example :
